@@ -73,6 +73,25 @@ OPS = [
     ("is_epb-negated", re.compile(r"\.is_epb\(\)"), lambda m: ".is_nepb()"),
     ("is_nearby->is_onsite", re.compile(r"\.is_nearby\(\)"), lambda m: ".is_onsite()"),
     ("unwrap_or_default-one", re.compile(r"\.unwrap_or\(0\.0\)"), lambda m: ".unwrap_or(1.0)"),
+    # second generation (round 2 of the task): narrower, "forgot a detail" changes
+    ("abs-removed", re.compile(r"\.abs\(\)"), lambda m: ""),
+    ("max0-removed", re.compile(r"\.max\(0\.0\)"), lambda m: ""),
+    ("any->all", re.compile(r"\.any\("), lambda m: ".all("),
+    ("all->any", re.compile(r"\.all\("), lambda m: ".any("),
+    ("find->rfind", re.compile(r"\.find\((?=\|)"), lambda m: ".rfind("),
+    ("iter-take-first", re.compile(r"\.iter\(\)(?=\s*\.(map|filter|zip|fold|sum|for_each))"), lambda m: ".iter().take(1)"),
+    ("trim-removed", re.compile(r"\.trim\(\)"), lambda m: ""),
+    ("continue->break", re.compile(r"\bcontinue;"), lambda m: "break;"),
+    ("first->last", re.compile(r"\.first\(\)"), lambda m: ".last()"),
+    ("next->last", re.compile(r"\.next\(\)(?=\s*\.|\s*\?|\s*;)"), lambda m: ".last()"),
+    ("splitn-1", re.compile(r"\.splitn\((\d+),"), lambda m: ".splitn(%d," % (int(m.group(1)) + 1)),
+    ("skip-changed", re.compile(r"\.skip\((\d+)\)"), lambda m: ".skip(%d)" % (int(m.group(1)) + 1)),
+    ("len-minus-one", re.compile(r"(?<=\w)\.len\(\)(?=\s*(\)|;|,|\]|\}|$))"), lambda m: ".len().saturating_sub(1)"),
+]
+# operators that apply INSIDE string literals (format precision: the documented number of decimals)
+STRING_OPS = [
+    ("precision-1", re.compile(r"\{(\w*):(>?\d*)\.([1-9])\}"), lambda m: "{%s:%s.%d}" % (m.group(1), m.group(2), int(m.group(3)) - 1)),
+    ("precision+1", re.compile(r"\{(\w*):(>?\d*)\.([0-8])\}"), lambda m: "{%s:%s.%d}" % (m.group(1), m.group(2), int(m.group(3)) + 1)),
 ]
 
 
@@ -104,6 +123,13 @@ def candidate_sites():
             for name, rx, rep in OPS:
                 for m in rx.finditer(code):
                     if code[: m.start()].count('"') % 2 == 1:
+                        continue
+                    new = code[: m.start()] + rep(m) + code[m.end():] + l[len(code):]
+                    if new != l:
+                        sites.append({"file": f, "line": i + 1, "op": name, "col": m.start(), "old": l, "new": new})
+            for name, rx, rep in STRING_OPS:
+                for m in rx.finditer(code):
+                    if code[: m.start()].count('"') % 2 == 0:
                         continue
                     new = code[: m.start()] + rep(m) + code[m.end():] + l[len(code):]
                     if new != l:
